@@ -24,6 +24,15 @@ type c19Case struct {
 	Dialect int       `json:"dialect"`
 	End     string    `json:"session_end"`                 // eof | garbage_frame | unknown_command | bad_checksum (the last three end the session as a failure)
 	Overlap bool      `json:"overlapping_second_terminal"` // another terminal uploads a file while this session is open
+	// every string the terminal controls may be hostile, not only the file names
+	AlarmID    kit.Hex `json:"alarm_id,omitempty"`    // default "A1"
+	TerminalID kit.Hex `json:"terminal_id,omitempty"` // default "T1"
+	// Announce[i] = number of the 0x1210 message (0..2) that announces file i; several 0x1210 on one connection
+	Announce     []int `json:"announced_in_message,omitempty"`
+	AnnounceLate bool  `json:"each_announcement_just_before_its_uploads,omitempty"`
+	// Again: after the session a second connection of the same terminal repeats it (the files then exist already)
+	Again        bool    `json:"session_repeated_on_a_new_connection,omitempty"`
+	AgainAlarmID kit.Hex `json:"alarm_id_of_the_repeat,omitempty"`
 }
 
 const c19OtherPhone = "13900139000"
@@ -124,6 +133,30 @@ func genC19(t *rapid.T) c19Case {
 		c.Names = append(c.Names, genHostileName(t, used))
 		c.Upload = append(c.Upload, rapid.SampledFrom([]int{0, 0, 1, 2}).Draw(t, "mode"))
 	}
+	hostileID := func(label string, max int) kit.Hex {
+		for {
+			b := genHostileName(t, map[string]bool{})
+			if len(b) <= max {
+				return b
+			}
+		}
+	}
+	if rapid.IntRange(0, 2).Draw(t, "hostile_alarm") == 0 {
+		c.AlarmID = hostileID("alarm", 32)
+	}
+	if rapid.IntRange(0, 3).Draw(t, "hostile_tid") == 0 {
+		c.TerminalID = hostileID("tid", ref.DialectIDLen[c.Dialect])
+	}
+	if rapid.IntRange(0, 2).Draw(t, "split") == 0 {
+		for range c.Names {
+			c.Announce = append(c.Announce, rapid.IntRange(0, 2).Draw(t, "ann"))
+		}
+		c.AnnounceLate = rapid.Bool().Draw(t, "late")
+	}
+	if rapid.IntRange(0, 3).Draw(t, "again") == 0 {
+		c.Again = true
+		c.AgainAlarmID = hostileID("alarm2", 32)
+	}
 	return c
 }
 
@@ -137,14 +170,21 @@ func checkC19(c c19Case, _ *kit.Collector) kit.Result {
 		res.Err = fmt.Errorf("HARNESS-ERROR sandbox: %v", err)
 		return res
 	}
-	s := upScript{Dialect: c.Dialect, TerminalID: kit.Hex("T1"), AlarmID: kit.Hex("A1")}
+	alarm, tid := c.AlarmID, c.TerminalID
+	if alarm == nil {
+		alarm = kit.Hex("A1")
+	}
+	if tid == nil {
+		tid = kit.Hex("T1")
+	}
+	s := upScript{Dialect: c.Dialect, TerminalID: tid, AlarmID: alarm}
 	for i, n := range c.Names {
 		s.Files = append(s.Files, upFile{Name: n, Size: 10 + i, Seed: byte(i + 1)})
 	}
-	s.Items = append(s.Items, upItem{Kind: "1210"})
-	for i, n := range c.Names {
+	upload := func(i int) {
+		n := c.Names[i]
 		if c.Upload[i] == 2 {
-			continue
+			return
 		}
 		s.Items = append(s.Items, upItem{Kind: "1211", File: i})
 		// the chunk header carries at most 50 name bytes: longer names cannot be uploaded, only announced
@@ -157,30 +197,57 @@ func checkC19(c c19Case, _ *kit.Collector) kit.Result {
 		}
 		s.Items = append(s.Items, upItem{Kind: "1212", File: i})
 	}
-	var stream []byte
-	var cuts []int
-	nControl := 0
-	for i, it := range s.Items {
-		stream = append(stream, s.encode(it, uint16(100+i))...)
-		cuts = append(cuts, len(stream))
-		if it.Kind != "chunk" {
-			nControl++
+	if c.Announce == nil {
+		s.Items = append(s.Items, upItem{Kind: "1210"})
+		for i := range c.Names {
+			upload(i)
+		}
+	} else {
+		groups := [3][]int{}
+		for i, g := range c.Announce {
+			groups[g] = append(groups[g], i)
+		}
+		if !c.AnnounceLate {
+			for _, g := range groups {
+				if len(g) > 0 {
+					s.Items = append(s.Items, upItem{Kind: "1210", Only: g})
+				}
+			}
+		}
+		for _, g := range groups {
+			if len(g) > 0 && c.AnnounceLate {
+				s.Items = append(s.Items, upItem{Kind: "1210", Only: g})
+			}
+			for _, i := range g {
+				upload(i)
+			}
 		}
 	}
-	// how the session ends: a clean EOF, or something that makes the connection loop quit with a failure
-	switch c.End {
-	case "garbage_frame":
-		stream = append(stream, 0x7e, 0x01, 0x02, 0x7e)
-		cuts = append(cuts, len(stream))
-	case "unknown_command":
-		stream = append(stream, ref.Spec{ID: 0x0002, PhoneBCD: phoneFor(false), Serial: 999}.Build()...)
-		cuts = append(cuts, len(stream))
-	case "bad_checksum":
-		f := ref.Spec{ID: 0x1211, PhoneBCD: phoneFor(false), Serial: 998, Body: ref.Body1211([]byte("zz"), 0, 1)}.Build()
-		f[len(f)-2] ^= 0x01
-		stream = append(stream, f...)
-		cuts = append(cuts, len(stream))
+	build := func(s upScript, end string) (stream []byte, cuts []int, nControl int) {
+		for i, it := range s.Items {
+			stream = append(stream, s.encode(it, uint16(100+i))...)
+			cuts = append(cuts, len(stream))
+			if it.Kind != "chunk" {
+				nControl++
+			}
+		}
+		// how the session ends: a clean EOF, or something that makes the connection loop quit with a failure
+		switch end {
+		case "garbage_frame":
+			stream = append(stream, 0x7e, 0x01, 0x02, 0x7e)
+			cuts = append(cuts, len(stream))
+		case "unknown_command":
+			stream = append(stream, ref.Spec{ID: 0x0002, PhoneBCD: phoneFor(false), Serial: 999}.Build()...)
+			cuts = append(cuts, len(stream))
+		case "bad_checksum":
+			f := ref.Spec{ID: 0x1211, PhoneBCD: phoneFor(false), Serial: 998, Body: ref.Body1211([]byte("zz"), 0, 1)}.Build()
+			f[len(f)-2] ^= 0x01
+			stream = append(stream, f...)
+			cuts = append(cuts, len(stream))
+		}
+		return
 	}
+	stream, cuts, nControl := build(s, c.End)
 	if c.Overlap {
 		// after this terminal's announcement another terminal (other phone) connects, uploads one file and leaves
 		other := upScript{Dialect: c.Dialect, Phone: c19OtherPhone, TerminalID: kit.Hex("T2"), AlarmID: kit.Hex("A2"),
@@ -202,6 +269,12 @@ func checkC19(c c19Case, _ *kit.Collector) kit.Result {
 		defer func() { streamHook = nil }()
 	}
 	r := runStream(c.Dialect, stream, cuts, 0, nControl, true)
+	if c.Again && r.panicked == "" {
+		s2 := s
+		s2.AlarmID = c.AgainAlarmID
+		st2, ct2, n2 := build(s2, "eof")
+		r = runStream(c.Dialect, st2, ct2, 0, n2, true)
+	}
 	escaping := false
 	for _, n := range c.Names {
 		if bytes.Contains(n, []byte("/")) || bytes.Contains(n, []byte("..")) {
@@ -214,6 +287,15 @@ func checkC19(c c19Case, _ *kit.Collector) kit.Result {
 	}
 	if escaping {
 		res.Labels = append(res.Labels, "name_with_separator_or_dotdot")
+	}
+	if c.AlarmID != nil || c.TerminalID != nil || c.Again {
+		res.Labels = append(res.Labels, "hostile_alarm_or_terminal_id")
+	}
+	if c.Announce != nil {
+		res.Labels = append(res.Labels, "several_announcements")
+	}
+	if c.Again {
+		res.Labels = append(res.Labels, "session_repeated")
 	}
 	res.NT = escaping
 	if r.panicked != "" {
